@@ -63,6 +63,10 @@ impl Sub for Freshness {
       b.footer("kid-1");
       b.assertion("ctx");
     }
+    // an application bug elsewhere in the process: a claim whose Serialize panics inside a build (contained)
+    if c.mode % 2 == 0 {
+      let _ = callbacks_misbehave(p, &lk, 2);
+    }
     let mut first_dup: Option<String> = None;
     // mode 4: the other local versions draw randomness on this thread in between
     let others: Vec<(Proto, KeyMaterial)> = Proto::LOCAL.iter().map(|q| (*q, keys::material(*q, &[43u8; 32]))).collect();
@@ -173,6 +177,10 @@ pub struct RngFailHistory {
   pub layer: Layer,
   pub ok: u32,
   pub attempts: u32,
+  /// 0: the source fails after `ok` requests; 1..4: it never fails but serves unusual, pairwise different outputs
+  /// (leading zeros, all ones, trailing zeros, all zeros around a call counter - see tools/failrandom.c)
+  #[serde(default)]
+  pub pattern: u8,
 }
 
 pub struct RngFailure;
@@ -215,7 +223,7 @@ impl Sub for RngFailure {
     let out = match std::process::Command::new(exe)
       .args(["c10-rngfail", &vi.to_string(), if c.layer == Layer::Generic { "0" } else { "1" }, &c.attempts.to_string()])
       .env("LD_PRELOAD", &lib)
-      .env("PV_RNG_OK", c.ok.to_string())
+      .env(if c.pattern == 0 { "PV_RNG_OK" } else { "PV_RNG_PATTERN" }, if c.pattern == 0 { c.ok.to_string() } else { c.pattern.to_string() })
       .output()
     {
       Ok(o) => o,
@@ -230,18 +238,26 @@ impl Sub for RngFailure {
     let tokens: Vec<&str> = lines.iter().filter_map(|l| l.strip_prefix("T ")).collect();
     let failures = lines.iter().filter(|l| **l == "E").count();
     let panics = lines.iter().filter(|l| **l == "P").count();
-    cl.tag(format!("{}:{}:ok={}", p.label(), c.layer.label(), c.ok));
+    if c.pattern > 0 {
+      cl.tag(format!("{}:{}:unusual-random-output:{}", p.label(), c.layer.label(), ["", "leading zeros", "all ones", "trailing zeros", "all zeros"][c.pattern as usize % 5]));
+      if failures + panics > 0 {
+        vio!("C10:build-failed:{}:{}", p.label(), c.layer.label(); "the random source served unusual but legal output (pattern {}) and {} of {} builds failed", c.pattern, failures + panics, c.attempts);
+      }
+    } else {
+      cl.tag(format!("{}:{}:ok={}", p.label(), c.layer.label(), c.ok));
+    }
     cl.tag(format!("builds: {} returned a token, {} an error, {} panicked", if tokens.is_empty() { "none" } else { "some" }, if failures == 0 { "none" } else { "some" }, if panics == 0 { "none" } else { "some" }));
-    cl.nontrivial(failures + panics > 0);
+    cl.nontrivial(failures + panics > 0 || c.pattern > 0);
     // whatever the builder does once randomness is unavailable (fail, or draw on a generator seeded earlier): the tokens
     // it DOES return must still carry pairwise different nonces, none of them the all-zero buffer nothing was written to
+    let source = if c.pattern > 0 { format!("serving unusual output (pattern {}: {})", c.pattern, ["", "leading zeros", "all ones", "trailing zeros", "all zeros"][c.pattern as usize % 5]) } else { format!("failing after {} requests", c.ok) };
     let mut seen = std::collections::HashSet::new();
     for n in &tokens {
       if n.bytes().all(|b| b == b'0') && matches!(p, Proto::V3L | Proto::V4L) {
-        vio!("C10:zero-nonce-after-rng-failure:{}:{}", p.label(), c.layer.label(); "with the OS random source failing after {} requests a token was returned whose nonce is all zero ({} attempts: {} tokens, {} errors)", c.ok, c.attempts, tokens.len(), failures);
+        vio!("C10:zero-nonce-after-rng-failure:{}:{}", p.label(), c.layer.label(); "with the OS random source {} a token was returned whose nonce is all zero ({} attempts: {} tokens, {} errors)", source, c.attempts, tokens.len(), failures);
       }
       if !seen.insert(*n) {
-        vio!("C10:nonce-repeated-after-rng-failure:{}:{}", p.label(), c.layer.label(); "with the OS random source failing after {} requests, nonce {} was used for two of the {} tokens returned ({} attempts, {} errors)", c.ok, n, tokens.len(), c.attempts, failures);
+        vio!("C10:nonce-repeated-after-rng-failure:{}:{}", p.label(), c.layer.label(); "with the OS random source {}, nonce {} was used for two of the {} tokens returned ({} attempts, {} errors)", source, n, tokens.len(), c.attempts, failures);
       }
     }
     Verdict::Pass
@@ -491,7 +507,7 @@ pub fn run(ctx: &Ctx) -> EvidenceMeta {
   jobs.push(Box::new(move || ctx.enumerate(af, fork_cases.into_iter(), false)));
   // the OS random source fails after 0 / 1 / 5 key-sized requests (fault injection in a helper process)
   let rf = &RngFailure;
-  let rng_cases: Vec<RngFailHistory> = Proto::LOCAL.iter().flat_map(|proto| [Layer::Generic, Layer::Prelude].into_iter().flat_map(move |layer| [0u32, 1, 5].into_iter().map(move |ok| RngFailHistory { proto: *proto, layer, ok, attempts: 12 }))).collect();
+  let rng_cases: Vec<RngFailHistory> = Proto::LOCAL.iter().flat_map(|proto| [Layer::Generic, Layer::Prelude].into_iter().flat_map(move |layer| [(0u32, 0u8), (1, 0), (5, 0), (0, 1), (0, 2), (0, 3), (0, 4)].into_iter().map(move |(ok, pattern)| RngFailHistory { proto: *proto, layer, ok, attempts: 12, pattern }))).collect();
   jobs.push(Box::new(move || ctx.enumerate(rf, rng_cases.into_iter(), false)));
   // builds that run at the same time on 8 / 16 threads (by design, not by the accident of the job scheduler)
   let cc = &Concurrent;
@@ -514,7 +530,7 @@ pub fn run(ctx: &Ctx) -> EvidenceMeta {
            Invariant over the history: the nonce fields (first 32, v2 24, decoded payload bytes) are pairwise distinct, the tokens are pairwise distinct, every one of the 256/192 nonce bit positions is 1 in N/2 +- sqrt(30 N) builds \
            (Hoeffding: a uniform source violates this with probability < 2^-70 over all positions and histories) and every nonce byte position takes >= 128 distinct values. \
            Concurrent histories: 8 / 16 threads released by a barrier build 2500 (thorough 12 000) tokens each at the same time under one key - no nonce twice in the union. \
-           Histories with a failing random source: getrandom() serves 0 / 1 / 5 key-sized requests and then fails for good (LD_PRELOAD fault injection in a helper process); whatever the builder then does, the tokens it still returns carry pairwise different, non-zero nonces. \
+           Histories with a failing random source: getrandom() serves 0 / 1 / 5 key-sized requests and then fails for good (LD_PRELOAD fault injection in a helper process); whatever the builder then does, the tokens it still returns carry pairwise different, non-zero nonces; the same with a source that never fails but serves unusual, pairwise different outputs (leading / trailing zero bytes, all ones, all zeros around a counter): every build succeeds and the nonces stay pairwise different. \
            Histories across fork(): pre in {{0,1,7}} builds, then the process forks and parent and child each build 50/200 more under the same key - no nonce may occur twice in the union. \
            An 'evaluation' is one history; builds_total / distinct_nonces_total count the builds. Non-trivial = N >= 1000; distinct by (version, builder, mode)."),
     assumptions: vec!["observes the OS random generator (that is the property); 'unpredictable' is not decidable by observation - a weak but equidistributed generator passes".into()],
